@@ -531,7 +531,11 @@ func sumDo(c *hx.Ctx, sc gen.SumScenario, b *sumBudget, wantModel bool) *gen.Sum
 	}
 	for _, o := range sumOracleNames {
 		msg, bad := byOracle[o]
-		c.Check(o, !bad, "", sumIn{o, sc}, msg)
+		c.Check(o, !bad, sumK10ShapeFor(c.ID, o, msg, bad, run), sumIn{o, sc}, msg)
+	}
+	if c.ID == "C13" { // C13 only: the oracle of known finding K10 (c13k10.go)
+		msg, shape, bad := sumAfterSecurity(run)
+		c.Check(sumAfterSecurityName, !bad, shape, sumIn{sumAfterSecurityName, sc}, msg)
 	}
 	c.Count("scenario:" + strings.SplitN(sc.Note, " ", 2)[0])
 	c.Count(fmt.Sprintf("H=%d", sc.H))
@@ -1044,6 +1048,11 @@ func replaySum(raw json.RawMessage) (bool, string) {
 	}
 	run := gen.RunSumScenario(in.Scenario)
 	fails := sumOracles(run)
+	if in.Oracle == sumAfterSecurityName {
+		if msg, _, bad := sumAfterSecurity(run); bad {
+			fails = append(fails, sumFail{sumAfterSecurityName, msg})
+		}
+	}
 	for _, f := range fails {
 		if f.Oracle == in.Oracle {
 			return false, f.Oracle + ": " + f.Msg
